@@ -20,7 +20,7 @@ Definition certify_done (calls : list call) (obs : list ev) (tr : list label) : 
   match runs tr (init calls) with
   | None => B "replay-produced-an-illegal-step"
   | Some s => if negb (evl_eqb (soe (log s)) obs) then B "projection-differs"
-              else if all_done_b s then tokOK else B "the-model-runs-does-not-finish-after-these-events"
+              else if all_done_b s then tokOK else B "the-model-run-does-not-finish-after-these-events"
   end.
 
 (* the replies sent in the model run are exactly the replies the peer received *)
